@@ -90,12 +90,7 @@ Proof.
 Qed.
 
 Lemma read_body_last a : a <> [] -> read_body a (zlen a - 1) = last_byte a.
-Proof.
-  intros H. unfold read_body.
-  assert (0 < length a)%nat by (destruct a; [congruence | simpl; lia]).
-  unfold zlen. destruct (Z.of_nat (length a) - 1 =? -1)%Z eqn:E; [lia|].
-  apply read_heap_last. assumption.
-Qed.
+Proof. intros H. unfold read_body. apply read_heap_last. assumption. Qed.
 
 Lemma ends_with_slash_last s c : last_byte s = Some c -> ends_with_slash s = (c =? 47).
 Proof.
@@ -126,8 +121,9 @@ Proof.
     replace (zlen a <? zlen e)%Z with true by (unfold zlen; lia).
     rewrite (bytes_eqb_len_ne e a) by lia. rewrite (is_prefix_longer e a) by lia. rewrite andb_false_r. cbn [orb].
     destruct a as [|x a'].
-    + simpl. intros H. inversion H. reflexivity.
+    + change (zlen [] =? 0)%Z with true. cbn iota. intros H. inversion H. reflexivity.
     + set (a := x :: a') in *. assert (Hne : a <> []) by discriminate.
+      replace (zlen a =? 0)%Z with false by (unfold zlen, a; simpl length; lia).
       rewrite read_body_last by assumption.
       destruct (last_byte_some a Hne) as [c Hc]. rewrite Hc. rewrite (ends_with_slash_last a c Hc).
       destruct (c =? 47) eqn:Ec; cbn [negb].
@@ -141,8 +137,9 @@ Proof.
     replace (zlen e <? zlen a)%Z with true by (unfold zlen; lia).
     rewrite (bytes_eqb_len_ne e a) by lia. rewrite (is_prefix_longer a e) by lia. rewrite andb_false_r, orb_false_r. cbn [orb].
     destruct e as [|x e'].
-    + simpl. discriminate.
+    + change (zlen [] =? 0)%Z with true. cbn iota. intros H. inversion H. reflexivity.
     + set (e := x :: e') in *. assert (Hne : e <> []) by discriminate.
+      replace (zlen e =? 0)%Z with false by (unfold zlen, e; simpl length; lia).
       rewrite read_heap_last by assumption.
       destruct (last_byte_some e Hne) as [c Hc]. rewrite Hc. rewrite (ends_with_slash_last e c Hc).
       destruct (c =? 47) eqn:Ec; cbn [negb].
@@ -152,26 +149,29 @@ Proof.
       * intros H. inversion H. reflexivity.
 Qed.
 
-(* the only way to fault *)
-Lemma argpath_no_fault e a : e <> [] -> arg_matches ArgPath e (Some (AStr a)) <> None.
+(* since commit c577f29 no read of the comparison can leave its object *)
+Lemma argpath_no_fault e a : arg_matches ArgPath e (Some (AStr a)) <> None.
 Proof.
-  intros He. unfold arg_matches.
+  unfold arg_matches.
   destruct (zlen a <? zlen e)%Z eqn:E1.
   - destruct a as [|x a'].
-    + simpl. destruct (zlen [] <? zlen e)%Z; discriminate.
-    + rewrite read_body_last by discriminate. destruct (last_byte_some (x :: a')) as [c ->]; [discriminate|].
+    + change (zlen [] =? 0)%Z with true. cbn iota. discriminate.
+    + replace (zlen (x :: a') =? 0)%Z with false by (unfold zlen; simpl length; lia).
+      rewrite read_body_last by discriminate. destruct (last_byte_some (x :: a')) as [c ->]; [discriminate|].
       destruct (negb (c =? SLASH_C)); [discriminate|].
       replace (zlen e <? zlen (x :: a'))%Z with false by lia. discriminate.
   - destruct (zlen e <? zlen a)%Z eqn:E2; [|discriminate].
-    rewrite read_heap_last by assumption. destruct (last_byte_some e He) as [c ->].
-    destruct (negb (c =? SLASH_C)); discriminate.
+    destruct e as [|y e'].
+    + change (zlen [] =? 0)%Z with true. cbn iota. discriminate.
+    + replace (zlen (y :: e') =? 0)%Z with false by (unfold zlen; simpl length; lia).
+      rewrite read_heap_last by discriminate. destruct (last_byte_some (y :: e')) as [c ->]; [discriminate|].
+      destruct (negb (c =? SLASH_C)); discriminate.
 Qed.
 
 (* ---- arg0namespace ------------------------------------------------------------------- *)
 Lemma read_body_at (e r : bytes) c : read_body (e ++ c :: r) (zlen e) = Some c.
 Proof.
   unfold read_body, read_heap, zlen.
-  destruct (Z.of_nat (length e) =? -1)%Z eqn:E; [lia|].
   destruct (Z.of_nat (length e) <? 0)%Z eqn:E2; [lia|].
   rewrite Nat2Z.id. rewrite nth_error_app2 by lia. now rewrite Nat.sub_diag.
 Qed.
@@ -227,10 +227,10 @@ Proof.
   - intros H. apply argpath_sound. exact H.
 Qed.
 
-Lemma arg_no_fault k e cur : (k = ArgPath -> e <> []) -> arg_matches k e cur <> None.
+Lemma arg_no_fault k e cur : arg_matches k e cur <> None.
 Proof.
-  intros He. destruct cur as [[a|a|]|]; destruct k; try (simpl; discriminate).
-  - apply argpath_no_fault. auto.
+  destruct cur as [[a|a|]|]; destruct k; try (simpl; discriminate).
+  - apply argpath_no_fault.
   - unfold arg_matches. destruct (zlen a <? zlen e)%Z eqn:E1; [discriminate|].
     destruct (negb (bytes_eqb (firstn (length e) a) e)) eqn:E2; [discriminate|].
     destruct (zlen e <? zlen a)%Z eqn:E3; [|discriminate].
@@ -241,7 +241,7 @@ Proof.
       - exfalso. assert (length (skipn (length e) a) = 0%nat) by now rewrite Es. rewrite skipn_length in H. lia.
       - eauto. }
     rewrite read_body_at. discriminate.
-  - apply (argpath_no_fault e a). auto.
+  - apply (argpath_no_fault e a).
 Qed.
 
 (* ---- the argument loop ------------------------------------------------------------------ *)
@@ -284,19 +284,12 @@ Proof.
     + apply IH. exact H.
 Qed.
 
-Definition no_empty_argpath (r : rule) : Prop :=
-  forall v, In (Some (ArgPath, v)) (r_args r) -> v <> [].
-
-Lemma args_no_fault : forall expected actual,
-  (forall v, In (Some (ArgPath, v)) expected -> v <> []) -> args_match expected actual <> None.
+Lemma args_no_fault : forall expected actual, args_match expected actual <> None.
 Proof.
-  induction expected as [|e rest IH]; intros actual H; simpl; [discriminate|].
-  destruct e as [[k v]|].
-  - pose proof (arg_no_fault k v (match actual with a :: _ => Some a | [] => None end)) as Hn.
-    destruct (arg_matches k v _) as [[|]|]; [| discriminate |].
-    + apply IH. intros v' Hv. apply H. now right.
-    + exfalso. apply Hn; [|reflexivity]. intros ->. apply H. now left.
-  - apply IH. intros v' Hv. apply H. now right.
+  induction expected as [|e rest IH]; intros actual; simpl; [discriminate|].
+  destruct e as [[k v]|]; [|apply IH].
+  pose proof (arg_no_fault k v (match actual with a :: _ => Some a | [] => None end)) as Hn.
+  destruct (arg_matches k v _) as [[|]|]; [apply IH | discriminate | congruence].
 Qed.
 
 (* ---- path_namespace ------------------------------------------------------------------------ *)
@@ -448,9 +441,9 @@ Proof.
 Qed.
 
 (* ---- absence of faults ------------------------------------------------------------------------------ *)
-Theorem no_fault ns r s a m skip : no_empty_argpath r -> rule_matches ns r s a m skip <> None.
+Theorem no_fault ns r s a m skip : rule_matches ns r s a m skip <> None.
 Proof.
-  intros Hne. unfold rule_matches.
+  unfold rule_matches.
   repeat match goal with |- (if ?c then Some false else _) <> None => destruct c; [discriminate|] end.
-  apply args_no_fault. exact Hne.
+  apply args_no_fault.
 Qed.
